@@ -3,10 +3,11 @@
 package c05
 
 import (
-	"runtime"
 	"fmt"
+	etcdRaft "github.com/coreos/etcd/raft"
 	"hash/fnv"
 	"os"
+	"runtime"
 	"strings"
 	"sync"
 	"sync/atomic"
@@ -131,7 +132,8 @@ func scenario(rec *mon.Recorder, c int) {
 	}
 	noiseSeed := uint64(rng.Int63())
 	var noiseCtr uint64
-	var slowNode uint64 // id of a node whose ready-loop is held up at every Ready (0 = none)
+	var slowNode uint64   // id of a node whose ready-loop is held up at every Ready (0 = none)
+	var slowLeader uint64 // id of a second such node (the leader, while a returning replica catches up)
 	if c%2 == 1 {
 		// a slow disk in every second scenario: one durable write in eight takes 1-15 ms
 		var dctr uint64
@@ -146,6 +148,17 @@ func scenario(rec *mon.Recorder, c int) {
 	// ---- monitors -----------------------------------------------------------
 	cl.OnEvent = func(n *sim.Node, g uuid.UUID, point string, args ...interface{}) {
 		key := fmt.Sprintf("%d/%s/%d", n.Id, g, n.Incarnation)
+		if point == "ready" && len(args) > 0 {
+			if rd, ok := args[0].(*etcdRaft.Ready); ok {
+				seen := map[uint64]bool{}
+				for _, msg := range rd.Messages {
+					if msg.Type == raftpb.MsgSnap && seen[msg.To] {
+						rec.Count("readies_with_a_snapshot_behind_another_message_to_the_same_peer", 1)
+					}
+					seen[msg.To] = true
+				}
+			}
+		}
 		switch point {
 		case "ready", "afterSave", "beforeSendFollower":
 			// scheduling noise inside the ready-loop: a slow replica accumulates
@@ -157,6 +170,9 @@ func scenario(rec *mon.Recorder, c int) {
 			}
 			if point == "ready" && atomic.LoadUint64(&slowNode) == n.Id {
 				time.Sleep(40 * time.Millisecond)
+			}
+			if point == "ready" && atomic.LoadUint64(&slowLeader) == n.Id {
+				time.Sleep(25 * time.Millisecond)
 			}
 		case "run.start":
 			m.mu.Lock()
@@ -351,6 +367,9 @@ func scenario(rec *mon.Recorder, c int) {
 		case 3:
 			pol.Dup = 0.2
 		}
+		if ph%3 == 2 {
+			pol.Fail = 0.15 // sends that fail loudly (the sender is told), not only silent loss
+		}
 		switch rng.Intn(3) {
 		case 1:
 			pol.DelayMax = 20 * time.Millisecond
@@ -358,7 +377,7 @@ func scenario(rec *mon.Recorder, c int) {
 			pol.DelayMax = 80 * time.Millisecond
 		}
 		cl.Net.SetPolicy(pol)
-		step := fmt.Sprintf("phase %d drop=%.1f dup=%.1f delay<=%v", ph, pol.Drop, pol.Dup, pol.DelayMax)
+		step := fmt.Sprintf("phase %d drop=%.1f dup=%.1f fail=%.2f delay<=%v", ph, pol.Drop, pol.Dup, pol.Fail, pol.DelayMax)
 		if nodes > 1 {
 			switch rng.Intn(5) {
 			case 0: // isolate a minority
@@ -446,7 +465,7 @@ func scenario(rec *mon.Recorder, c int) {
 	}
 	// ---- a follower that was cut off catches up through the leader's snapshot while its ready-loop is slow: the
 	// snapshot, the appends behind it and the commit index that covers them pile up into one Ready
-	if nodes >= 3 && !m.failed && c%2 == 0 {
+	for round := 0; round < 1 && nodes >= 3 && !m.failed; round++ {
 		var live []int
 		for i, n := range cl.Nodes {
 			if !n.Dead() {
@@ -472,7 +491,21 @@ func scenario(rec *mon.Recorder, c int) {
 			time.Sleep(120 * time.Millisecond)
 			atomic.StoreUint64(&slowNode, cl.Nodes[f].Id)
 			cl.Net.Heal()
+			if c%2 == 0 || nodes == 5 {
+				// the link is back but still failing now and then, and the leader's loop is slow too: the
+				// snapshot for the returning replica travels in batches whose earlier messages to it may fail
+				cl.Net.SetPolicy(sim.Policy{Fail: 0.5})
+				for _, i := range rest {
+					if g := cl.Nodes[i].PartitionRaft(dsId, pids[0]); g != nil {
+						if st := g.VerifStatus(); st.Lead == cl.Nodes[i].Id {
+							atomic.StoreUint64(&slowLeader, cl.Nodes[i].Id)
+						}
+					}
+				}
+			}
 			time.Sleep(700 * time.Millisecond)
+			cl.Net.SetPolicy(sim.Policy{})
+			atomic.StoreUint64(&slowLeader, 0)
 			atomic.StoreUint64(&slowNode, 0)
 			step := fmt.Sprintf("n%d cut off, the others compact, n%d returns with a slow ready-loop", f+1, f+1)
 			script = append(script, step)
